@@ -201,9 +201,36 @@ func reference(c Case, perm []int) runResult {
 }
 
 func slipRun(c Case, perm []int, mode string) (out runResult) {
-	suffix := fmt.Sprintf("v%d", ctr.Add(1))
+	n := ctr.Add(1)
+	if h.Thorough() {
+		// slip keeps an entry per function name for ever (Package.lambdas is never shrunk), so hundreds of thousands
+		// of fresh names per shard cost gigabytes: the thorough tier goes round a pool of names. Every name is undefined
+		// again at the end of its variant, so the next user of a name meets an undefined function as before.
+		n %= 20000
+	}
+	suffix := fmt.Sprintf("v%d", n)
 	rn := func(s string) string { return rename(s, suffix) }
 	scope := slip.NewScope()
+	defer func() {
+		seen := map[string]bool{}
+		for _, text := range append(append(append([]string{}, c.Macros...), c.Defs...), c.Main, c.NewDef, c.After) {
+			for _, name := range nameRx.FindAllString(text, -1) {
+				name = rename(name, suffix)
+				if seen[name] {
+					continue
+				}
+				seen[name] = true
+				_ = ev.Try(func() slip.Object {
+					if strings.HasPrefix(name, "zg") {
+						slip.CurrentPackage.Remove("*" + name + "*")
+					} else {
+						slip.CurrentPackage.Undefine(name)
+					}
+					return nil
+				})
+			}
+		}
+	}()
 	evalTop := func(src string) ev.Outcome {
 		switch mode {
 		case "code-compile":
